@@ -98,7 +98,7 @@ theorem pagePrev_inv (lt : α → α → Bool)
         intro h; rw [h] at hlast; simp at hlast
       have hsplit : todo = todo.take l ++ todo.drop l := (List.take_append_drop l todo).symm
       have hdone' : (done ++ todo.take l).getLast? = some last := by
-        rw [List.getLast?_append_of_ne_nil _ hne]; exact hlast
+        rw [List.getLast?_append, hlast]; rfl
       have hL : done ++ todo = (done ++ todo.take l) ++ todo.drop l := by
         rw [List.append_assoc, ← hsplit]
       have hlen : fuel > (todo.drop l).length := by
@@ -149,7 +149,7 @@ theorem pageOffset_inv (L : List α) (l : Nat) (hl : l > 0) :
         apply Nat.lt_of_not_le
         intro hle
         apply hne
-        rw [List.drop_eq_nil_iff.mpr hle]; rfl
+        rw [List.drop_eq_nil_iff.mpr hle]; simp
       have hacc : L.take off ++ (L.drop off).take l = L.take (off + l) := by
         rw [List.take_add]
       rw [hacc]
